@@ -91,6 +91,10 @@ func (cv0 *HookConfigV0) ConvertAndCheck(c *HookConfig) error {
 				return fmt.Errorf("event '%s' is unsupported", eventName)
 			}
 		}
+		if kubeCfg.EventTypes == nil {
+			// no 'event' key: all events are monitored (the default), as in v1.
+			eventTypes = nil
+		}
 		monitor.WithEventTypes(eventTypes)
 
 		monitor.Kind = kubeCfg.Kind
